@@ -311,10 +311,13 @@ def _sig(eng, pred):
     return [k for k, v in sig.items() if pred(tuple(v))]
 
 
+ZERO_ARG_OPERATORS = ('cup', 'cap', 'in', 'notin', 'infty')      # named by the statement of C12, not read from the code
+
+
 @REG.specfun('zero_arg_name')
 def _zero_arg_name(ctx, t):
-    """the command is in the signature table with (0, 0)"""
-    return VB(ops.disj([strz(t) == pystr(k) for k in _sig(ctx.engine, lambda v: v == (0, 0))]))
+    """one of the zero-argument operators of C12"""
+    return VB(ops.disj([strz(t) == pystr(k) for k in ZERO_ARG_OPERATORS]))
 
 
 @REG.specfun('bare_arg_name')
@@ -347,6 +350,7 @@ REG.add(Contract(
              P(['C12'], 'zero-argument-operators-take-nothing',
                '%s and n_required_args < 0 and n_optional_args < 0 and zero_arg_name(buf.Q[old(buf.i) + skip]) ==> '
                'buf.i == old(buf.i) + skip + 1 and len(result[1].items) == 0' % _HASNAME),
+             # (for every mode: the operators take no argument wherever they stand, also inside a group within math)
              P(['C08'], 'bare-only-with-signature',
                '%s and n_required_args < 0 and n_optional_args < 0 and not bare_arg_name(buf.Q[old(buf.i) + skip]) ==> '
                'not bare(result[1].items)' % _HASNAME),
